@@ -187,6 +187,7 @@ fn attach_syscalls(trace_path: &str) -> Result<(), String> {
     // writes of the flush, as (file, offset, length): binding of AbyBuf's flush order to the code
     let mut wr: HashMap<i64, Vec<Value>> = HashMap::new();
     let mut pos: HashMap<String, u64> = HashMap::new();
+    let mut incomplete: std::collections::HashSet<i64> = std::collections::HashSet::new();
     let file_of = |arg: &str| -> &'static str {
         let head = arg.split(',').next().unwrap_or("");
         if head.contains(".val>") { "val" } else if head.contains(".key>") { "key" } else if head.contains(".htx>") { "htx" } else { "other" }
@@ -196,7 +197,27 @@ fn attach_syscalls(trace_path: &str) -> Result<(), String> {
         if !f.starts_with(&format!("{base}.strace.")) { continue; }
         let text = std::fs::read_to_string(e.path()).unwrap_or_default();
         let mut cur: Option<i64> = None;
-        for line in text.lines() {
+        // a call that strace reports in two pieces ("<unfinished ...>" / "<... name resumed>", which happens
+        // when a signal or another traced process gets in between) is put together again, at the place
+        // where it completed
+        let mut pending: HashMap<String, String> = HashMap::new();
+        let mut merged: Vec<String> = Vec::new();
+        for raw in text.lines() {
+            let pid = raw.split_whitespace().next().unwrap_or("").to_string();
+            if let Some(p) = raw.find("<unfinished ...>") {
+                pending.insert(pid, raw[..p].trim_end().to_string());
+            } else if let (Some(a), Some(b)) = (raw.find("<... "), raw.find(" resumed>")) {
+                if a < b {
+                    let head = pending.remove(&pid).unwrap_or_default();
+                    merged.push(format!("{} {}", head, &raw[b + 9..]));
+                } else {
+                    merged.push(raw.to_string());
+                }
+            } else {
+                merged.push(raw.to_string());
+            }
+        }
+        for line in merged.iter().map(|s| s.as_str()) {
             if let Some(p) = line.find("access(\"/abyverif-op-") {
                 let rest = &line[p + 21..];
                 let num: String = rest.chars().take_while(|c| c.is_ascii_digit()).collect();
@@ -224,14 +245,21 @@ fn attach_syscalls(trace_path: &str) -> Result<(), String> {
                         pos.insert(key, off + n);
                     }
                 }
+                let mut seen = false;
                 for (call, op) in [("fsync(", "sync_all"), ("fdatasync(", "sync_data")] {
                     if let Some(p) = line.find(call) {
                         if line[..p].ends_with(' ') || p == 0 || line[..p].ends_with('>') {
                             let arg = &line[p + call.len()..];
                             let file = if arg.contains(".val>") { "val" } else if arg.contains(".key>") { "key" } else if arg.contains(".htx>") { "htx" } else { "other" };
-                            if line.contains("= 0") { sys.get_mut(&i).unwrap().push(json!([file, op])); }
+                            if line.contains("= 0") { sys.get_mut(&i).unwrap().push(json!([file, op])); seen = true; }
+                            if line.contains("= -1") { seen = true; }
                         }
                     }
+                }
+                // a line that mentions a sync call and could not be read: the observation of this call is
+                // incomplete, so no syscall list is attached to it (no verdict from half an observation)
+                if !seen && line.contains("sync") && !line.contains("abyverif-op-") {
+                    incomplete.insert(i);
                 }
             }
         }
@@ -243,7 +271,7 @@ fn attach_syscalls(trace_path: &str) -> Result<(), String> {
         let mut v: Value = serde_json::from_str(l).map_err(|e| format!("{e}"))?;
         if let Some(i) = v.get("i").and_then(|i| i.as_i64()) {
             if let Some(s) = sys.get(&i) {
-                if v.get("io").is_some() {
+                if v.get("io").is_some() && !incomplete.contains(&i) {
                     v["sys"] = Value::Array(s.clone());
                     v["wr"] = Value::Array(wr.get(&i).cloned().unwrap_or_default());
                 }
